@@ -48,7 +48,8 @@ EXC_ALIASES: Dict[str, List[str]] = {}
 
 def _plain_local_assignments(tree: ast.AST) -> None:
     """Inside function bodies `x: T = v` becomes the plain assignment `x = v` (the annotation is kept on the node as `_ann`):
-    adding or removing a local type annotation must not change what any rule sees."""
+    adding or removing a local type annotation must not change what any rule sees.  `return a if c else b` becomes an
+    if/else of two returns."""
     class _T(ast.NodeTransformer):
         depth = 0
 
@@ -65,6 +66,16 @@ def _plain_local_assignments(tree: ast.AST) -> None:
                 new = ast.Assign(targets=[node.target], value=node.value)
                 ast.copy_location(new, node)
                 new._ann = node.annotation  # type: ignore[attr-defined]
+                return new
+            return node
+
+        def visit_Return(self, node):  # type: ignore[no-untyped-def]
+            # `return a if c else b` is `if c: return a` / `else: return b` (same evaluation order): path rules see the branch
+            if self.depth and isinstance(node.value, ast.IfExp):
+                e = node.value
+                a = ast.copy_location(ast.Return(value=e.body), node)
+                b = ast.copy_location(ast.Return(value=e.orelse), node)
+                new = ast.copy_location(ast.If(test=e.test, body=[self.visit_Return(a)], orelse=[self.visit_Return(b)]), node)
                 return new
             return node
 
@@ -858,7 +869,27 @@ class Program:
         t = f
         while t.parent is not None and isinstance(t.node, ast.Lambda):
             t = t.parent
-        return t.qname in self.known
+        if t.qname in self.known:
+            return True
+        # a known function that merely MOVED inside its module (method <-> module-level function, another class): same
+        # module, same bare name, the old qualified name is gone and no other function of the module carries the name
+        return self._moved_from(t) is not None
+
+    def _moved_from(self, t: FunctionInfo) -> Optional[str]:
+        if self.known is None or t.parent is not None:
+            return None
+        mod = t.module.name
+        olds = [q for q in self.known if q.startswith(mod + ".") and q.split(".")[-1] == t.name and q not in self.functions
+                and "<locals>" not in q]
+        same = [x for x in self.functions.values() if x.module is t.module and x.name == t.name and x.parent is None]
+        if len(olds) == 1 and len(same) == 1:
+            return olds[0]
+        return None
+
+    def anchor(self, f: FunctionInfo) -> str:
+        """The name a function is listed under in the rules' reasoned tables: its qualified name, or the one it had before it
+        was moved inside its module (method <-> module-level function)."""
+        return self._moved_from(f) or f.qname
 
     def is_transparent(self, f: FunctionInfo) -> bool:
         """A later-introduced helper that the CFG builder can inline into its callers (so its constructs are judged in
@@ -872,6 +903,11 @@ class Program:
         """Anchor lookup by qualified name ('transaction.Transaction.commit'); vanished => AnalysisError."""
         fi = self.functions.get(f"{PKG}.{qname}") or self.functions.get(qname)
         if fi is None:
+            # moved inside its module (see is_known): the unique function of that module with the same bare name
+            full = qname if qname.startswith(PKG + ".") else f"{PKG}.{qname}"
+            for x in self.functions.values():
+                if x.parent is None and self._moved_from(x) == full:
+                    return x
             raise AnalysisError(f"anchor function vanished: {qname}")
         return fi
 
